@@ -401,8 +401,22 @@ func (job *CronJob) Once() bool {
 	return job.Expression == nil
 }
 
+// logged is what the job's own goroutine can say about the job without
+// the Cron's lock: everything but 'cancelled', which whoever removes
+// the job writes (with the lock) while the job runs.
+func (job *CronJob) logged() CronJob {
+	return CronJob{
+		Id:         job.Id,
+		Schedule:   job.Schedule,
+		Expression: job.Expression,
+		Next:       job.Next,
+		Fn:         job.Fn,
+		Err:        job.Err,
+	}
+}
+
 func (c *Cron) run(ctx *core.Context, job *CronJob) {
-	core.Log(core.INFO|CRON, ctx, "Cron.run", "job", *job, "name", c.Name)
+	core.Log(core.INFO|CRON, ctx, "Cron.run", "job", job.logged(), "name", c.Name)
 	once := job.Once()
 	err := job.Fn(time.Now())
 	if err != nil {
@@ -477,7 +491,7 @@ func (c *Cron) insert(ctx *core.Context, job *CronJob) int {
 }
 
 func (c *Cron) schedule(ctx *core.Context, job *CronJob, checkLimit bool) error {
-	core.Log(core.INFO|CRON, ctx, "Cron.schedule", "job", *job, "name", c.Name)
+	core.Log(core.INFO|CRON, ctx, "Cron.schedule", "job", job.logged(), "name", c.Name)
 
 	if job.Expression != nil {
 		next := job.Expression.Next(time.Now().UTC())
